@@ -11,7 +11,7 @@ import stat
 from .world import canonical_dir_bytes
 
 KEYS = {"a": "a", "s/b": "s/b é", "s/t/c": "s/t/c.dir"}
-CONTENTS = {"c0": b"", "c1": b"first content\n", "c2": b"second content, longer\r\n", "c3": b"\x00third"}
+CONTENTS = {"c0": b"", "c1": b"first content\n", "c2": b"2nd content\r\n\n", "c3": b"\x00third"}
 REVKEY = {v: k for k, v in KEYS.items()}
 
 
@@ -19,6 +19,7 @@ def md5(b):
     return hashlib.md5(b).hexdigest()
 
 
+assert len(CONTENTS["c1"]) == len(CONTENTS["c2"])      # twins: a replacement of equal size
 OID = {c: md5(b) for c, b in CONTENTS.items()}
 REVOID = {v: k for k, v in OID.items()}
 
